@@ -274,7 +274,7 @@ fn budget(tier: &str) -> Duration {
     let secs = std::env::var("RDBCHECK_BUDGET_S").ok().and_then(|s| s.parse().ok());
     match (secs, tier) {
         (Some(s), _) => Duration::from_secs(s),
-        (None, "thorough") => Duration::from_secs(3000),
+        (None, "thorough") => crate::report::scaled(Duration::from_secs(3000)),
         _ => Duration::from_secs(45),
     }
 }
